@@ -261,11 +261,37 @@ def _pmap_worker(args):
     return sub
 
 
+_PRELOADED = False
+
+
+def _preload():
+    """Import everything heavy in the parent before forking: an item time-out (SIGALRM) that fires in the middle of a
+    first import inside a worker leaves a half-initialised module behind, and every later item of that worker then
+    fails for a reason that has nothing to do with the library."""
+    global _PRELOADED
+    if _PRELOADED:
+        return
+    _PRELOADED = True
+    import importlib
+    for m in ('numpy', 'numpy.ctypeslib', 'pandas', 'z3', 'pycryptosat', 'pycmsgen', 'pyunigen', 'sweetpea',
+              'sweetpea._internal.server', 'sweetpea._internal.sampling_strategy.random',
+              'sweetpea._internal.sampling_strategy.iterate_sat', 'sweetpea._internal.sampling_strategy.cmsgen',
+              'sweetpea._internal.sampling_strategy.unigen', 'sweetpea._internal.sampling_strategy.iterate',
+              'sweetpea._internal.sampling_strategy.uniform', 'sweetpea._internal.sampling_strategy.iterate_ilp',
+              'sweetpea._internal.core.generate.tools', 'sweetpea._internal.core.generate.sample_non_uniform',
+              'sweetpea._internal.core.generate.is_satisfiable', 'sweetpea._internal.core.generate.utility'):
+        try:
+            importlib.import_module(m)
+        except Exception:
+            pass
+
+
 def pmap(ctx, fn, items, procs=None):
     """Run fn(sub, item) for every item in forked workers; merge tallies into ctx in item order.
     fn must be a module-level function; items must be picklable. Returns the list of fn results."""
     import multiprocessing as mp
     items = list(items)
+    _preload()
     procs = procs or min(int(os.environ.get('VERIF_PROCS', '14')), max(1, len(items)))
     args = [(fn, ctx.pid, ctx.tier, ctx.seed, it) for it in items]
     if procs <= 1 or len(items) <= 1:
